@@ -2,7 +2,7 @@
 from common import *
 import idx_corr
 PROP_MODULE = "NeverModel.Props.C12"
-REQUIRED = ["Never.Idx.rowmajor_exact", "Never.Idx.rowmajor_oob", "Never.Idx.rowmajor_injective", "Never.Idx.range_denotation_partial",
+REQUIRED = ["Never.Idx.rowmajor_exact", "Never.Idx.rowmajor_oob", "Never.Idx.rowmajor_injective", "Never.Idx.range_denotation_partial", "Never.Idx.range_denotation",
             "Never.Idx.slice_of_slice", "Never.Idx.slice_deref_exact_partial", "Never.Idx.string_index", "Never.Idx.slice_string",
             "Never.Idx.shape_conformance", "Never.Idx.deref_negative_rejected"]
 
